@@ -531,6 +531,84 @@ def rule_case_files(all_rules, max_nodes_per_file=40000):
   | Some (TLM r c es) => list_eqb shp [r; c] && leqb es want
   | _ => false end.
 ''', items, 'lit_ok', 'qtexpr * list nat * list qexpr')
+    # replace_physical_derivs on basis-function derivatives: the model's rpd_bf (about which
+    # physical_*_sound / spacetime_split_sound are proved) must return the implementation's expression
+    # and helper-variable definitions
+    items = []
+    for (key, val) in all_rules.get('rpd', []):
+        d, st, din = key
+        dout, defs = val
+        try:
+            if din[0] != 'PD':
+                continue
+            txt = '(%s, %d, %s, %s, %s, %s, %s, [%s])' % (
+                cb(st), d, cstr(din[1]), 'None' if din[2] is None else '(Some %d)' % din[2], cnl(din[3]), cb(din[4]),
+                cexpr(dout), '; '.join('(%s, %s)' % (cstr(n), cexpr(t)) for n, t in defs))
+            items.append((txt, tree_size(dout) + sum(tree_size(t) for _, t in defs) + 5,
+                          {'rule': 'replace_physical_derivs', 'dim': d, 'spacetime': st, 'in': to_sexp(din),
+                           'out': to_sexp(dout)[:1500], 'defs': [n for n, _ in defs]}))
+        except Skip:
+            pass
+    chunked('rpd', '''Definition rpd_ok (c : bool * nat * string * option nat * list nat * bool * qexpr * list (string * qexpr)) : bool :=
+  let '(st, d, n, cmp, D, p, want, wdefs) := c in
+  match qrpd_bf st d n cmp D p with
+  | RNew e ds =>
+      qexpr_eqb e want && Nat.eqb (List.length ds) (List.length wdefs) &&
+      forallb (fun w : string * qexpr =>
+                 existsb (fun dd : string * qtexpr =>
+                            String.eqb (fst dd) (fst w) &&
+                            match snd dd with TS e' => qexpr_eqb e' (snd w) | _ => false end) ds) wdefs
+  | RSame => qexpr_eqb (PD n cmp D p) want && Nat.eqb (List.length wdefs) 0
+  | RFail => false
+  end.
+''', items, 'rpd_ok', 'bool * nat * string * option nat * list nat * bool * qexpr * list (string * qexpr)')
+
+    # substitute_vec_components: every entry of the component vector/matrix is the model's substitution
+    items = []
+    for (hdr, din, dout) in all_rules.get('vec', []):
+        try:
+            bfs = hdr['bfuns']
+            if hdr['arity'] == 1:
+                ar, bu, bv, nu, nv = 1, bfs[0]['name'], bfs[0]['name'], bfs[0]['numcomp'], 1
+                ents = dout[1] if dout[0] == 'LV' else None
+            else:
+                ar, bu, bv, nu, nv = 2, bfs[0]['name'], bfs[1]['name'], bfs[0]['numcomp'], bfs[1]['numcomp']
+                ents = dout[3] if dout[0] == 'LM' and (dout[1], dout[2]) == (nv, nu) else None
+            if ents is None or nu is None or nv is None:
+                continue
+            sz = tree_size(din) + sum(tree_size(e) for e in ents)
+            if sz > 3000:
+                continue
+            items.append(('(%d, %s, %s, %d, %d, %s, [%s])' % (ar, cstr(bu), cstr(bv), nu, nv, cexpr(din), '; '.join(cexpr(e) for e in ents)),
+                          sz, {'rule': 'substitute_vec_components', 'in': to_sexp(din)[:1500], 'arity': ar}))
+        except Skip:
+            pass
+    chunked('vec', '''Definition vec_ok (c : nat * string * string * nat * nat * qexpr * list qexpr) : bool :=
+  let '(ar, bu, bv, nu, nv, e, ents) := c in
+  if Nat.eqb ar 1
+  then leqb (map (fun i => qsubst_bf bu i e) (seq 0 nu)) ents
+  else leqb (flat_map (fun i => map (fun j => qsubst_vec2 bu bv i j e) (seq 0 nu)) (seq 0 nv)) ents.
+''', items, 'vec_ok', 'nat * string * string * nat * nat * qexpr * list qexpr')
+
+    # det / inv of the model (det_spec, inv_spec) against the implementation's expansions of a generic matrix
+    items = []
+    for (n, R) in all_rules.get('opsm', []):
+        try:
+            A = '[%s]' % '; '.join('[%s]' % '; '.join('VR "A" [%d;%d] [0;0;0] false' % (i, j) for j in range(n)) for i in range(n))
+            items.append(('(%d, %s, %s, [%s])' % (n, A, cexpr(R[0]), '; '.join(cexpr(e) for e in R[1:1 + n * n])),
+                          sum(tree_size(e) for e in R[:1 + n * n]), {'rule': 'det/inv', 'n': n}))
+        except Skip:
+            pass
+    chunked('opsm', '''Definition opsm_ok (c : nat * list (list qexpr) * qexpr * list qexpr) : bool :=
+  let '(n, A, wdet, winv) := c in
+  oeqb (qe_det (S n) A) (Some wdet) &&
+  match qe_inv A with
+  | Some t => match omap (fun ij : nat * nat => qtat t [fst ij; snd ij])
+                         (flat_map (fun i => map (fun j => (i, j)) (seq 0 n)) (seq 0 n)) with
+              | Some es => leqb es winv | None => false end
+  | None => false
+  end.
+''', items, 'opsm_ok', 'nat * list (list qexpr) * qexpr * list qexpr')
     return files
 
 
@@ -795,7 +873,7 @@ def run_driver(ctx, specs, batch=120, max_nodes=6000, rules=True):
     def one(b):
         return ctx.impl.run(DRIVER, {'forms': b, 'max_nodes': max_nodes, 'rules': rules}, timeout=1500)['results']
     out = []
-    with ThreadPoolExecutor(max_workers=8) as ex:
+    with ThreadPoolExecutor(max_workers=4) as ex:
         for r in ex.map(one, batches):
             out += r
     return out
@@ -887,7 +965,10 @@ def run(ctx):
     status = collections.Counter()
     stats = collections.Counter()
     dist = collections.Counter()
-    all_rules = {'fold': [], 'dx': [], 'lit': []}
+    all_rules = {'fold': [], 'dx': [], 'lit': [], 'rpd': [], 'vec': [], 'opsm': []}
+    for ospec, ores_ in zip(ospecs, ores):
+        if ospec['ops'][0] == 'linalg' and ores_['status'] == 'Ok':
+            all_rules['opsm'].append((ospec['ops'][1], ores_['R']))
     seen_rule = set()
     eval_cases = []
     nviol = 0
@@ -912,6 +993,17 @@ def run(ctx):
                 if key not in seen_rule:
                     seen_rule.add(key)
                     all_rules[kind].append(rec)
+        for rec in res.get('rules', {}).get('rpd', []):
+            key = 'rpd' + json.dumps(rec[0])
+            if key not in seen_rule:
+                seen_rule.add(key)
+                all_rules['rpd'].append(rec)
+        if st == 'Ok' and 'header' in res:
+            for rec in res.get('rules', {}).get('vec', []):
+                key = 'vec' + json.dumps(rec[0])
+                if key not in seen_rule and len(all_rules['vec']) < 400:
+                    seen_rule.add(key)
+                    all_rules['vec'].append((res['header'], rec[0], rec[1]))
         if st == 'Ok':
             for rec in res.get('rules', {}).get('dx', []):
                 key = 'dx' + json.dumps(rec[0])
@@ -928,7 +1020,7 @@ def run(ctx):
         import multiprocessing
         global _WORK
         _WORK = work
-        with multiprocessing.get_context('fork').Pool(12) as pool:
+        with multiprocessing.get_context("fork").Pool(4) as pool:
             outs = pool.map(_check_index, range(len(work)), chunksize=25)
         _WORK = []
     else:
@@ -1021,7 +1113,7 @@ def run(ctx):
                 desc['environment'] = bad
             ctx.report(('impl:value-changed:rule:%s' if bad else 'tie:rule:%s') % desc['rule'],
                        'the rule %s of the implementation no longer behaves as the proved model: %s -> %s%s' % (
-                           desc['rule'], desc['in'][:300], str(desc['out'])[:300],
+                           desc['rule'], str(desc.get('in'))[:300], str(desc.get('out'))[:300],
                            ' ; the new output has a different value' if bad else ' ; (value still equal on random environments)'),
                        desc, found_input=bool(bad))
     if ops_failed:
